@@ -57,3 +57,151 @@ VARIANTS = [
              (C, '\tcontentBytes, err := json.Marshal(content)\n', '\tvar buf bytes.Buffer\n\terr := json.NewEncoder(&buf).Encode(content)\n\tcontentBytes := buf.Bytes()\n')],
       why='a buffer local to the call is owned by the call'),
 ]
+
+# ---- the writer's steps split between WriteFile and a helper that owns the temporary file up to Close (the helper hands
+# ---- the name back, WriteFile renames), and the single-exit writer (if/else chain, one error variable, no defer)
+WF_OLD = """func WriteFile(tempDir, path string, content []byte) (writeErr error) {
+	tempFile, err := os.CreateTemp(tempDir, tempFileNamePrefix)
+	if err != nil {
+		return fmt.Errorf("failed to create temp file: %w", err)
+	}
+	defer func() {
+		// remove the temp file in case of error
+		if writeErr != nil {
+			tempFile.Close()
+			os.Remove(tempFile.Name())
+		}
+	}()
+
+	if _, err := tempFile.Write(content); err != nil {
+		return fmt.Errorf("failed to write content to temp file: %w", err)
+	}
+
+	// close before moving
+	if err := tempFile.Close(); err != nil {
+		return fmt.Errorf("failed to close temp file: %w", err)
+	}
+
+	// rename is atomic on UNIX-like platforms
+	return os.Rename(tempFile.Name(), path)
+}"""
+def wf_split(call='tempPath, err := writeTempFile(tempDir, content)\n\tif err != nil {\n\t\treturn err\n\t}',
+             write='if _, err := tempFile.Write(content); err != nil {\n\t\treturn "", fmt.Errorf("failed to write content to temp file: %w", err)\n\t}',
+             close='if err := tempFile.Close(); err != nil {\n\t\treturn "", fmt.Errorf("failed to close temp file: %w", err)\n\t}',
+             name='tempFile.Name()'):
+    return """func WriteFile(tempDir, path string, content []byte) error {
+	""" + call + """
+	if err := os.Rename(tempPath, path); err != nil {
+		os.Remove(tempPath)
+		return err
+	}
+	return nil
+}
+
+func writeTempFile(tempDir string, content []byte) (tempPath string, writeErr error) {
+	tempFile, err := os.CreateTemp(tempDir, tempFileNamePrefix)
+	if err != nil {
+		return "", fmt.Errorf("failed to create temp file: %w", err)
+	}
+	defer func() {
+		if writeErr != nil {
+			tempFile.Close()
+			os.Remove(tempFile.Name())
+		}
+	}()
+	""" + write + """
+	""" + close + """
+	return """ + name + """, nil
+}"""
+def wf_single(chain=None, after=''):
+    if chain is None:
+        chain = """if _, err = tempFile.Write(content); err != nil {
+		err = fmt.Errorf("failed to write content to temp file: %w", err)
+	} else if err = tempFile.Close(); err != nil {
+		err = fmt.Errorf("failed to close temp file: %w", err)
+	} else {
+		err = os.Rename(tempPath, path)
+	}"""
+    return """func WriteFile(tempDir, path string, content []byte) error {
+	tempFile, err := os.CreateTemp(tempDir, tempFileNamePrefix)
+	if err != nil {
+		return fmt.Errorf("failed to create temp file: %w", err)
+	}
+	tempPath := tempFile.Name()
+	""" + chain + """
+	if err != nil {
+		tempFile.Close()
+		os.Remove(tempPath)
+	}""" + after + """
+	return err
+}"""
+VARIANTS += [
+ dict(name='benign-writer-split-helper', file=F, expect='silent', find=WF_OLD, replace=wf_split(),
+      why='Rename runs only where the helper returned a nil error, and the helper returns nil only behind the success edges of Write and Close'),
+ dict(name='split-close-error-ignored', file=F, expect='flagged(writer/protocol)', find=WF_OLD, replace=wf_split(close='tempFile.Close()')),
+ dict(name='split-write-error-ignored', file=F, expect='flagged(writer/protocol)', find=WF_OLD, replace=wf_split(write='tempFile.Write(content)')),
+ dict(name='split-helper-failure-ignored', file=F, expect='flagged(writer/protocol)', find=WF_OLD,
+      replace=wf_split(call='tempPath, _ := writeTempFile(tempDir, content)')),
+ dict(name='split-helper-returns-other-name', file=F, expect='flagged(writer/protocol)', find=WF_OLD,
+      replace=wf_split(name='filepath.Join(tempDir, "notation-last")')),
+ dict(name='split-helper-never-closes', file=F, expect='flagged(writer/protocol)', find=WF_OLD, replace=wf_split(close='')),
+ dict(name='benign-writer-single-exit', file=F, expect='silent', find=WF_OLD, replace=wf_single(),
+      why='every value that reaches the single return is a non-nil wrapped error or the result of the rename itself; the second Close sits on the failure path only'),
+ dict(name='single-exit-write-error-swallowed', file=F, expect='flagged(writer/success-only-after-rename)', find=WF_OLD,
+      replace=wf_single(chain="""if _, err = tempFile.Write(content); err != nil {
+		err = nil // best effort: the cache is only an optimisation
+	} else if err = tempFile.Close(); err != nil {
+		err = fmt.Errorf("failed to close temp file: %w", err)
+	} else {
+		err = os.Rename(tempPath, path)
+	}""")),
+ dict(name='single-exit-error-cleared-after-cleanup', file=F, expect='flagged(writer/success-only-after-rename)', find=WF_OLD,
+      replace=wf_single(after='\n\tif errors.Is(err, fs.ErrExist) {\n\t\terr = nil\n\t}')),
+ dict(name='single-exit-rename-before-close', file=F, expect='flagged(writer/protocol)', find=WF_OLD,
+      replace=wf_single(chain="""if _, err = tempFile.Write(content); err != nil {
+		err = fmt.Errorf("failed to write content to temp file: %w", err)
+	} else if err = os.Rename(tempPath, path); err == nil {
+		err = tempFile.Close()
+	}""")),
+ dict(name='single-exit-close-only-on-failure', file=F, expect='flagged(writer/protocol)', find=WF_OLD,
+      replace=wf_single(chain="""if _, err = tempFile.Write(content); err != nil {
+		err = fmt.Errorf("failed to write content to temp file: %w", err)
+	} else {
+		err = os.Rename(tempPath, path)
+	}""")),
+ dict(name='single-exit-write-not-awaited', file=F, expect='flagged(writer/protocol)', find=WF_OLD,
+      replace=wf_single(chain="""_, werr := tempFile.Write(content)
+	if err = tempFile.Close(); err != nil {
+		err = fmt.Errorf("failed to close temp file: %w", err)
+	} else {
+		err = os.Rename(tempPath, path)
+	}
+	if err == nil && werr != nil {
+		err = fmt.Errorf("failed to write content to temp file: %w", werr)
+	}""")),
+]
+
+# ---- the decoder in a function Get calls
+DEC_OLD = '\tvar content fileCacheContent\n\tif err := json.Unmarshal(contentBytes, &content); err != nil {\n\t\treturn nil, fmt.Errorf("failed to decode file retrieved from file cache: %w", err)\n\t}\n'
+def dec_helper(arg='contentBytes'):
+    return '\tcontent, err := decodeContent(%s)\n\tif err != nil {\n\t\treturn nil, err\n\t}\n' % arg
+SET_DOC = '// Set stores the CRL bundle in c with url as key.'
+DEC_FN = """// decodeContent decodes the content of a cache file
+func decodeContent(data []byte) (fileCacheContent, error) {
+	var content fileCacheContent
+	if err := json.Unmarshal(data, &content); err != nil {
+		return content, fmt.Errorf("failed to decode file retrieved from file cache: %w", err)
+	}
+	return content, nil
+}
+
+""" + SET_DOC
+VARIANTS += [
+ dict(name='benign-decode-helper', expect='silent',
+      edits=[(C, DEC_OLD, dec_helper()), (C, SET_DOC, DEC_FN)],
+      why='the helper decodes its parameter and its only call passes the content result of the one read'),
+ dict(name='decode-helper-gets-a-prefix', expect='flagged(reader/decodes-those-bytes)',
+      edits=[(C, DEC_OLD, dec_helper('contentBytes[:len(contentBytes)&^511]')), (C, SET_DOC, DEC_FN)]),
+ dict(name='decode-helper-called-with-other-bytes-too', expect='flagged(reader/decodes-those-bytes)',
+      edits=[(C, DEC_OLD, '\tif _, err := decodeContent([]byte(url)); err == nil {\n\t\treturn nil, corecrl.ErrCacheMiss\n\t}\n' + dec_helper()), (C, SET_DOC, DEC_FN)]),
+]
